@@ -83,13 +83,28 @@ example : (match genSingle exModel exQuery with | .ok p => p == exPlan | .error 
     exPlan.ctes = [exCte] ∧ exPlan.fusable exCte = true ∧ exPlan.fuse exCte = Spec.flat exModel exQuery := by
   refine ⟨?_, ?_, ?_, ?_⟩ <;> decide
 
-/-- F1: with `limit = 0` the generated plan has no LIMIT (Python truthiness), so it returns every
-group, whereas the reference semantics returns none. -/
-theorem C01_limit_zero_counterexample :
-    (match genSingle exModel { exQuery with limit := some 0 } with
-     | .ok p => p.limit == none && (p.eval exDb).length == 2
-     | .error _ => false) = true ∧
-    (Spec.finish exModel { exQuery with limit := some 0 } (Spec.grouped exModel exQuery (exDb "t"))).length = 0 := by
-  constructor <;> decide
+/-- LIMIT / OFFSET / ORDER BY of the plan are the query's (offset 0 = no offset); after the
+repair of F1 (`if limit is not None`) `limit = 0` is honoured. -/
+theorem C01_limit_offset {m : SModel} {q : Query} {p : Plan} (h : genSingle m q = .ok p) :
+    p.limit = q.limit ∧ sliceRows p.offset p.limit = sliceRows q.offset q.limit ∧
+    p.order = q.orderBy.map (fun fd => ((match splitFirstDot fd.1 with | some (_, rest) => rest | none => fd.1), fd.2)) := by
+  unfold genSingle at h
+  simp only [bind, Except.bind, pure, Except.pure] at h
+  split at h
+  · exact absurd h (by simp)
+  · split at h
+    · exact absurd h (by simp)
+    · simp only [Except.ok.injEq] at h
+      subst h
+      refine ⟨rfl, ?_, rfl⟩
+      funext l
+      cases ho : q.offset with
+      | none => rfl
+      | some n => cases n <;> rfl
+
+/-- limit = 0 returns no rows (regression guard for the repaired defect F1) -/
+example : (match genSingle exModel { exQuery with limit := some 0 } with
+     | .ok p => (p.eval exDb).length == 0
+     | .error _ => false) = true := by decide
 
 end SideVerif
